@@ -285,7 +285,6 @@ RV = "vibesql_executor::insert::row_validator::RowValidator::<'a>::"
 PREEXTRACTED = {
     (RV + 'validate_primary_key_uniqueness', 'pk'): 'key pre-extracted by RowValidator::validate_column_constraints; its derivation is checked by the key-order rule',
     (RV + 'validate_unique_constraints', 'unique'): 'key pre-extracted by RowValidator::validate_column_constraints; its derivation is checked by the key-order rule',
-    (RV + 'validate_foreign_keys', 'pk'): 'key pre-extracted by RowValidator::validate_column_constraints; its derivation is checked by the key-order rule',
 }
 
 
